@@ -11,9 +11,12 @@ pub mod c08b;
 pub mod c09;
 pub mod c10;
 pub mod c11;
+pub mod c12;
+pub mod c13;
 pub mod c15;
 pub mod c17;
 pub mod fmt;
+pub mod nav;
 
 pub fn dispatch(ctx: &Ctx, replay_file: Option<&str>) -> i32 {
     macro_rules! prop {
@@ -38,6 +41,8 @@ pub fn dispatch(ctx: &Ctx, replay_file: Option<&str>) -> i32 {
         "C09" => prop!(c09),
         "C10" => prop!(c10),
         "C11" => prop!(c11),
+        "C12" => prop!(c12),
+        "C13" => prop!(c13),
         "C15" => prop!(c15),
         "C17" => prop!(c17),
         other => {
